@@ -116,14 +116,43 @@ pub fn main(a: &Args) {
         jobs.push((w, "nonword", nonwords % 4, nonwords % 6));
         nonwords += 1;
     }
+    // misspellings of dialect-tagged entries, each under all four dialects one after the other on one thread
+    // (in a random order): whatever one dialect's checker learnt about the token must not reach the next
+    let tagged: Vec<&Vec<char>> = words.iter().filter(|w| w.len() >= 5 && w.iter().all(|c| c.is_ascii_lowercase())
+        && dict.get_word_metadata(w).and_then(|m| m.dialect).is_some()).collect();
+    let mut all4 = 0;
+    let want4 = a.num("dialect-words", 150) as usize;
+    guard = 0;
+    while all4 < want4 && guard < want4 * 20 && !tagged.is_empty() {
+        guard += 1;
+        let mut b = (*rng.pick(&tagged[..])).clone();
+        let p = rng.range(1, b.len() - 1);
+        match rng.below(3) { 0 => b.insert(p, *rng.pick(&letters[..])), 1 => { b.remove(p); } _ => b[p] = *rng.pick(&letters[..]) }
+        if dict.contains_word(&b) { continue; }
+        jobs.push((b, "nonword-all", rng.below(24), all4 % 6));
+        all4 += 1;
+    }
+    // dialect-tagged entries themselves (flagged under the other dialects, with suggestions)
+    for k in 0..(want4 / 2).min(tagged.len()) {
+        let w = tagged[rng.below(tagged.len())].clone();
+        jobs.push((w, "listed-all", rng.below(24), k % 6));
+    }
     let set2 = set.clone();
     let dict2 = dict.clone();
     let evs = par_map(jobs.len(), a.num("threads", 12) as usize,
         |_| dialects.map(|d| SpellCheck::new(FstDictionary::curated(), d)),
         |scs, i| {
             let (w, form, d, tpl) = &jobs[i];
-            job(w, form, dialects[*d], *tpl, &set2, &dict2, &mut scs[*d])
+            if let Some(f) = form.strip_suffix("-all") {
+                // d encodes one of the 24 orders of the four dialects
+                let mut order = vec![0usize, 1, 2, 3];
+                let mut k = *d;
+                let mut perm = Vec::new();
+                for n in (1..=4).rev() { perm.push(order.remove(k % n)); k /= n; }
+                return perm.into_iter().map(|di| job(w, if f == "nonword" { "nonword" } else { "listed" }, dialects[di], *tpl, &set2, &dict2, &mut scs[di])).collect::<Vec<_>>();
+            }
+            vec![job(w, form, dialects[*d], *tpl, &set2, &dict2, &mut scs[*d])]
         });
-    for e in evs { out.emit(&e); }
+    for v in evs { for e in v { out.emit(&e); } }
     println!("{}", json!({"events": out.finish(), "words": words.len()}));
 }
